@@ -103,7 +103,8 @@ int main(int argc, char** argv) {
                 // having accepted each other's handshake they must hold one key again
                 vclock::advance_s(c.i("rotwait", 301));
                 na.tick();
-                nb2 = std::make_unique<Node>(peer_id(c.i("idb")), cfg(u32(c, "seedb"), pow));
+                // seedb2: the peer comes back under the same peer id with ANOTHER identity seed (a daemon restarted without a pinned seed)
+                nb2 = std::make_unique<Node>(peer_id(c.i("idb")), cfg(c.has("seedb2") ? u32(c, "seedb2") : u32(c, "seedb"), pow));
                 pb = nb2.get();
                 const auto wa2 = na.generate_handshake_work(pb->id());
                 const auto wb2 = pb->generate_handshake_work(na.id());
@@ -115,7 +116,7 @@ int main(int argc, char** argv) {
             }
             Node& nbr = *pb;
             ev::Ev e("hs");
-            e.i("rehs", c.i("rehs", 0)).i("seeda", u32(c, "seeda") & 0x7fffffff).i("ida", c.i("ida")).i("idb", c.i("idb")).s("order", ab ? "ab" : "ba").i("pow", pow)
+            e.i("rehs", c.i("rehs", 0)).i("rekey", c.has("seedb2") ? 1 : 0).i("seeda", u32(c, "seeda") & 0x7fffffff).i("ida", c.i("ida")).i("idb", c.i("idb")).s("order", ab ? "ab" : "ba").i("pow", pow)
                 .b("work", wa.has_value() && wb.has_value())
                 .raw("sca", limbs(test::NodeTestAccess::scalar(na))).raw("scb", limbs(test::NodeTestAccess::scalar(nbr)))
                 .raw("puba", limbs(na.public_identity())).raw("pubb", limbs(nbr.public_identity())).b("oka", oka).b("okb", okb);
